@@ -799,7 +799,7 @@ pub fn run(ctx: &mut Ctx) {
                 let mut items: Vec<Item> = Vec::new();
                 for p in 0u32..=0xffff {
                     let boundary = p < 0x40 || p >= 0xff00 || (0x7ff0..0x8010).contains(&p) || p % 0x1000 < 2;
-                    if quick && !boundary && p % 37 != 0 {
+                    if quick && !boundary && p % 101 != 0 {
                         continue;
                     }
                     for ctl in [0x80u8, 0xc0, 0x81] {
